@@ -975,4 +975,37 @@ def neverRetryBatch : List ι → List (Res β) → IoBatchResult ι β
     let r := neverRetryBatch its rest
     ⟨it :: r.calls, r.sleeps, r.outcome.map (consOk v)⟩
 
+/-! ## `run_parallel` -/
+
+theorem parLoop_all_ok {γ : Type} (vs : List γ) : ∀ (i : Nat),
+    (parLoop i (vs.map (Except.ok : γ → Res γ))).calls = List.range' i vs.length ∧
+    (parLoop i (vs.map (Except.ok : γ → Res γ))).outcome = .ok vs := by
+  induction vs with
+  | nil => intro i; simp [parLoop]
+  | cons v vs ih =>
+    intro i
+    have h := ih (i + 1)
+    simp [parLoop, h.1, h.2, List.range'_succ]
+
+theorem parLoop_first_error {γ : Type} (vs : List γ) (e : Err) (rest : List (Res γ)) : ∀ (i : Nat),
+    (parLoop i (vs.map (Except.ok : γ → Res γ) ++ .error e :: rest)).calls = List.range' i (vs.length + 1) ∧
+    (parLoop i (vs.map (Except.ok : γ → Res γ) ++ .error e :: rest)).outcome = .error e := by
+  induction vs with
+  | nil => intro i; simp [parLoop]
+  | cons v vs ih =>
+    intro i
+    have h := ih (i + 1)
+    simp [parLoop, h.1, h.2, List.range'_succ]
+
+/-- every list of outcomes is all-`Ok`, or some `Ok`s followed by a first `Err` and a rest -/
+theorem outcomes_cases {γ : Type} : ∀ (ops : List (Res γ)),
+    (∃ vs : List γ, ops = vs.map Except.ok) ∨
+    (∃ (vs : List γ) (e : Err) (rest : List (Res γ)), ops = vs.map Except.ok ++ .error e :: rest)
+  | [] => .inl ⟨[], rfl⟩
+  | .error e :: rest => .inr ⟨[], e, rest, rfl⟩
+  | .ok v :: rest =>
+    match outcomes_cases rest with
+    | .inl ⟨vs, h⟩ => .inl ⟨v :: vs, by simp [h]⟩
+    | .inr ⟨vs, e, r, h⟩ => .inr ⟨v :: vs, e, r, by simp [h]⟩
+
 end IB.Cloud
